@@ -49,6 +49,16 @@ def sh(cmd, timeout=None, cwd=None, env=None, inp=None, memlimit_gb=None):
 class Inconclusive(Exception):
     pass
 
+# every TU of the two libraries (native replay builds link the whole thing)
+ALL_CORE = ['bindings.cc', 'build.cc', 'builtin-closure.cc', 'builtin-cmp.cc', 'builtin-cst.cc', 'builtin-shf.cc', 'builtin.cc',
+            'constant.cc', 'docstring.cc', 'init.cc', 'int.cc', 'layout.cc', 'op.cc', 'overload.cc', 'pred_result.cc', 'scon.cc',
+            'selector.cc', 'stack.cc', 'tree.cc', 'tree_cr.cc', 'value-closure.cc', 'value-cst.cc', 'value-seq.cc',
+            'value-str.cc', 'value.cc', 'strip.cc', 'libzwerg.cc', '@gen/parser.cc', '@gen/lexer.cc']
+ALL_DW = ['atval.cc', 'cache.cc', 'coverage.cc', 'dwcst.cc', 'dwfl_context.cc', 'dwit.cc', 'dwmods.cc', 'libzwerg-dw.cc',
+          'value-aset.cc', 'builtin-aset.cc', 'value-dw.cc', 'builtin-dw.cc', 'builtin-dw-abbrev.cc', 'builtin-dw-voc.cc',
+          'value-symbol.cc', 'builtin-symbol.cc']
+ALL_LIBS = ('-ldw', '-lelf', '-ldl')
+
 _hd = None
 def headers_digest():
     """digest of every header that a native object may depend on (repo working tree + harness dir)"""
@@ -187,7 +197,8 @@ class Ctx:
             src = self.src_path(tu)
             out = os.path.join(d, re.sub(r'[^A-Za-z0-9]', '_', tu) + '.bc')
             cmd = ['clang++-14'] + self.cxxflags(['-D' + x for x in defs]) + [
-                opt, '-fno-inline', '-fno-vectorize', '-fno-slp-vectorize', '-fno-unroll-loops',
+                opt, '-mllvm', '-simplifycfg-sink-common=false', '-mllvm', '-simplifycfg-hoist-common=false',
+                '-fno-inline', '-fno-vectorize', '-fno-slp-vectorize', '-fno-unroll-loops',
                 '-fno-access-control' if tu.startswith('@h/') else '-fno-access-control',
                 '-fno-stack-protector', '-fno-use-cxa-atexit' if False else '-fuse-cxa-atexit',
                 '-Wno-everything', '-c', '-emit-llvm', src, '-o', out]
@@ -243,7 +254,8 @@ class Ctx:
         open(ll2, 'w').write('\n'.join(out))
         ll3 = ll[:-3] + '.inl.ll'
         rc, o, e, _, _ = sh(['opt-14', '-passes=cgscc(inline),function(sroa,early-cse,simplifycfg,instsimplify,adce),globaldce',
-                             '-inline-threshold=%d' % threshold, '-S', ll2, '-o', ll3], timeout=600)
+                             '-inline-threshold=%d' % threshold, '-simplifycfg-sink-common=false', '-simplifycfg-hoist-common=false',
+                             '-S', ll2, '-o', ll3], timeout=600)
         if rc != 0:
             raise Inconclusive('opt (inline round) failed: ' + e[-800:])
         return ll3
@@ -287,8 +299,8 @@ class Ctx:
     # ---- CBMC
     def cbmc(self, cfile, entry, unwind, stubs=('cxxrt.c', 'vp_cbmc.c'), unwindset=None, timeout=600, extra=(),
              memlimit_gb=24, backend=None, trace=True, object_bits=None, harness_unwind=None,
-             harness_loop_rx=r'^_ZL|__bodyv|S_map|U_src|P_sym|reslog'):
-        cmd = ['cbmc', cfile] + [os.path.join(STUBS, s) for s in stubs] + ['-I', ENGINE, '--function', entry,
+             harness_loop_rx=r'^_ZL|__bodyv|__run|S_map|U_src|P_sym|reslog|^c\d\d_', cdefs=()):
+        cmd = ['cbmc', cfile] + [os.path.join(STUBS, s) for s in stubs] + ['-I', ENGINE] + ['-D' + x for x in cdefs] + ['--function', entry,
                '--unwind', str(unwind), '--unwinding-assertions', '--no-malloc-may-fail',
                '--no-signed-overflow-check', '--no-undefined-shift-check', '--no-div-by-zero-check',
                '--pointer-check', '--bounds-check', '--pointer-primitive-check',
@@ -304,7 +316,8 @@ class Ctx:
                 if re.search(harness_loop_rx, m.group(1)):
                     us[m.group(1)] = harness_unwind
         us.update({'vp_memset.0': 130, 'vp_memcpy.0': 130, 'vp_memmove.0': 130, 'vp_memmove.1': 130, 'vp_dup.0': 66,
-              'vp_strlen.0': 66, 'vp_libc_memcmp.0': 66, 'vp_libc_memchr.0': 66})
+              'vp_strlen.0': 66, 'vp_libc_memcmp.0': 66, 'vp_libc_memchr.0': 66,
+                   'vp_obj_rank.0': 30, 'vp_mul64x64.0': 12, 'vp_divrem64.0': 12})
         us.update(unwindset or {})
         cmd += ['--unwindset', ','.join('%s:%d' % kv for kv in us.items())]
         if object_bits:
@@ -521,6 +534,7 @@ class Module:
         self._exe = None
         self._genexe = None
         self._genexes = {}
+        self._entry_locks = {}
         self.kf_defs = []
         import threading
         self._lock = threading.RLock()
@@ -546,6 +560,14 @@ class Module:
         candidates) of classes the entry never constructs disappear"""
         with self._lock:
             self._lower()
+            if entry in self.cfiles:
+                return self.cfiles[entry]
+            lk = self._entry_locks.setdefault(entry, __import__('threading').Lock())
+        with lk:
+            return self._cfile_for_locked(entry)
+
+    def _cfile_for_locked(self, entry):
+        with self._lock:
             if entry in self.cfiles:
                 return self.cfiles[entry]
         ctx = self.ctx
@@ -599,9 +621,9 @@ class Module:
 
 
 def run_entry(ctx, mod, entry, unwind, timeout=600, backend=None, unwindset=None, object_bits=12, note='',
-              bounds=None, tv_seeds=3, expect_fail=None, memlimit_gb=24, extra=(), harness_unwind=None):
+              bounds=None, tv_seeds=3, expect_fail=None, memlimit_gb=24, extra=(), harness_unwind=None, cdefs=(), label=None):
     """check one harness entry; fills ctx.obligations etc.  Returns verdict string."""
-    ob = dict(harness=entry, module=mod.name, unwind=unwind, backend=backend or 'cbmc-default-sat', bounds=bounds or note)
+    ob = dict(harness=label or entry, module=mod.name, unwind=unwind, backend=backend or 'cbmc-default-sat', bounds=bounds or note)
     try:
         cfile = mod.cfile_for(entry)
     except Inconclusive as e:
@@ -611,7 +633,7 @@ def run_entry(ctx, mod, entry, unwind, timeout=600, backend=None, unwindset=None
         log('INCONCLUSIVE property=%s harness=%s %s' % (ctx.prop, entry, ob['reason'][:300]))
         return 'inconclusive'
     res = ctx.cbmc(cfile, entry, unwind, stubs=mod.stubs, unwindset=unwindset, timeout=timeout, backend=backend,
-                   object_bits=object_bits, memlimit_gb=memlimit_gb, extra=extra, harness_unwind=harness_unwind)
+                   object_bits=object_bits, memlimit_gb=memlimit_gb, extra=extra, harness_unwind=harness_unwind, cdefs=cdefs)
     ob.update(seconds=res['wall'], rss_mb=res['rss_mb'])
     def inconc(reason):
         ob.update(verdict='inconclusive', reason=reason[:600])
@@ -649,6 +671,8 @@ def run_entry(ctx, mod, entry, unwind, timeout=600, backend=None, unwindset=None
             kind = classify(p)
             vals = nondet_values(p)
             desc = p['description']
+            if kind in ('unwind', 'safety', 'ub'):
+                desc = '%s [%s]' % (desc, p.get('property', ''))
             rp = save_replay(ctx, entry, desc, vals, mod)
             try:
                 exe = mod.native()
@@ -718,7 +742,7 @@ def run_entry(ctx, mod, entry, unwind, timeout=600, backend=None, unwindset=None
                                 rss_mb=ob['rss_mb'], assertions_proved=ob['n_props'],
                                 property_assertions=[p['description'] for p in by.get('property', [])][:8],
                                 witness_inputs=witvals[:16]))
-    log('ok   %-28s %6.1fs %5dMB  %d assertions proved, witness replayed' % (entry, res['wall'], res['rss_mb'], ob['n_props']))
+    log('ok   %-28s %6.1fs %5dMB  %d assertions proved, witness replayed' % (label or entry, res['wall'], res['rss_mb'], ob['n_props']))
     return 'discharged'
 
 def save_replay(ctx, entry, desc, vals, mod):
@@ -762,3 +786,12 @@ def generic_replay(ctx, mods, js):
         return 1
     log('replay: no violation (rc=%d)' % rc)
     return 0
+
+def run_simple(ctx, mod, plan, **kw):
+    """plan: list of (entry, unwind, timeout, bounds-text)"""
+    jobs = []
+    for (e, unwind, to, b) in plan:
+        if getattr(ctx, 'only', None) and e not in ctx.only:
+            continue
+        jobs.append(lambda e=e, unwind=unwind, to=to, b=b: run_entry(ctx, mod, e, unwind, timeout=to, bounds=b, **kw))
+    run_parallel(jobs)
